@@ -14,6 +14,7 @@ import (
 	"runtime/debug"
 	"sort"
 	"strings"
+	"sync"
 	"time"
 	_ "unsafe"
 
@@ -70,6 +71,8 @@ type run struct {
 	stopWatch chan struct{}
 	post      func() // post-run checks executed outside the bubble (real time allowed)
 	inconclusive string
+	closeNow  chan struct{} // closed when the case's close-at(k) point is reached (C12)
+	closeOnce sync.Once
 }
 
 var R *run
@@ -144,6 +147,35 @@ func (r *run) finish(verdict, note string) {
 		}
 	}
 	os.Exit(0)
+}
+
+// nap sleeps d of fake time, or until the close-at point of the case is reached.
+func (r *run) nap(d time.Duration) {
+	if d <= 0 {
+		return
+	}
+	t := time.NewTimer(d)
+	select {
+	case <-t.C:
+	case <-r.closeNow:
+		t.Stop()
+	}
+}
+
+func (r *run) closing() bool {
+	select {
+	case <-r.closeNow:
+		return true
+	default:
+		return false
+	}
+}
+
+func (r *run) triggerClose() {
+	r.closeOnce.Do(func() {
+		r.k.logf("close-at point reached (event %d)", r.k.nEv)
+		close(r.closeNow)
+	})
 }
 
 func goroutineDump() string {
@@ -232,6 +264,7 @@ func main() {
 					R.finish("violation", "panic")
 				}
 			}()
+			R.closeNow = make(chan struct{})
 			R.k = newKernel(&c)
 			runScenario(R)
 		})
